@@ -1595,8 +1595,15 @@ func (a *align) Entropy(site int, removegaps bool) (float64, error) {
 		}
 	}
 
-	for _, v := range occur {
-		proba := float64(v) / float64(total)
+	// Characters are taken in increasing order: the sum of floating point
+	// terms (hence its rounding) must not depend on the iteration order of the map
+	chars := make([]int, 0, len(occur))
+	for c := range occur {
+		chars = append(chars, int(c))
+	}
+	sort.Ints(chars)
+	for _, c := range chars {
+		proba := float64(occur[uint8(c)]) / float64(total)
 		entropy -= proba * math.Log(proba)
 	}
 
@@ -1848,7 +1855,10 @@ func (a *align) Pssm(log bool, pseudocount float64, normalization int) (pssm map
 	/* Initialize entropy if NORM_LOGO*/
 	entropy = make([]float64, a.Length())
 	/* Applying normalization factors */
-	for k, v := range pssm {
+	// Characters are taken in the order of the alphabet: the entropy is a sum of
+	// floating point terms whose rounding must not depend on the iteration order of the map
+	for _, k := range alphabet {
+		v := pssm[k]
 		for i := range v {
 			v[i] = v[i] * normfactors[k]
 			if normalization == PSSM_NORM_LOGO {
